@@ -272,14 +272,24 @@ def exForIterable : Tm :=
                   (.seq (.op .exprS (.seq (.op .call (.seq (.var 2 "print") (.seq (.var 3 "x") .nil))) .nil)) .nil)) .nil)))
   (.seq (.op .exprS (.seq (.op .call (.seq (.var 4 "f") .nil)) .nil)) .nil)
 
-/-- **Witness (known finding D31).**  The resolver resolves the iterable of a `for` with the item
-already declared, the compiler compiles it before the item is pushed: the closure in the iterable
-marks the *item* captured, the compiler finds the outer `x`, still `LocalInitialized`, through
-`resolve_capture` and panics — although the resolver accepted the program. -/
-theorem C02_witness_for_iterable_scope :
-    (resolve exForIterable).errors = [] ∧
-    (compile (resolve exForIterable)).panics = ["Unexpected symbol x with state LocalInitialized."] := by
+/-- **Regression (repaired finding D31, repo commit 22c8429).**  The resolver resolves the iterable of a `for` before the
+item is declared, as the compiler compiles it: the closure in the iterable marks the OUTER `x` captured (a box in slot 1
+of `f`, read through capture 0 of the lambda), the item is a plain local, nothing panics.  (With the old order — item
+declared first — the resolver marked the item, and the compiler, finding the outer `x` still `LocalInitialized` through
+`resolve_capture`, panicked "Unexpected symbol x with state LocalInitialized." on a program the resolver accepted.) -/
+theorem C02_for_iterable_outside_item_scope :
+    namesOk exForIterable = true ∧ (resolve exForIterable).errors = [] ∧ mtOk (resolve exForIterable).modTable = true ∧
+    (compile (resolve exForIterable)).panics = [] ∧
+    ((compile (resolve exForIterable)).funs.map (fun f => (f.name, f.evs))).take 2 =
+      [("lambda", [.get (.capture 0)]),
+       ("f", [.emptyBox, .fillBox, .closure "lambda" [.loc 1], .get (.local 2), .get (.local 2), .set (.local 3),
+              .get (.modsym 1), .get (.local 3)])] := by
   decide
+
+/-- … the Spec interpreter prints 1 and 2 for it (the iterable is the outer list), and so does the machine -/
+example : Sem.run 60 exForIterable = (["1", "2"], "ok") := by decide
+
+#guard Machine.run 200 (resolve exForIterable) == (["1", "2"], "ok")
 
 /-- `class A { init() { self.v = 1; let g = || self; } }  let a = A();  print(a.v);` -/
 def exInitSelf : Tm :=
